@@ -279,6 +279,7 @@ def judge_all(col, tier, tasks, rows, slot):
     """rows: summaries of every (task, seed) load. Applies the absolute and the differential oracle."""
     index = {t['id']: t for t in tasks}
     by_group = {}
+    misfits = []
     for r in rows:
         by_group.setdefault(index[r['task']]['group'], []).append(r)
     for gid in sorted(by_group):
@@ -300,11 +301,7 @@ def judge_all(col, tier, tasks, rows, slot):
         if not passing:
             continue
         ref = passing[0]
-        if gtask['family'] == 'hash' and ref['task'] == gid and ref['seed'] == REF_SEED:
-            want_loaded = '/broken/' not in gid
-            if ref['loaded'] != want_loaded:
-                raise HarnessError('corpus package of task %s: reference load %s (%s %s)' % (
-                    gid, 'was rejected' if want_loaded else 'was accepted', ref['rejected'], (ref['message'] or '')[:500]))
+        group_failures = 0
         for r in passing[1:]:
             t = index[r['task']]
             fam = t['family']
@@ -314,8 +311,20 @@ def judge_all(col, tier, tasks, rows, slot):
                 if not r['loaded'] and r['kinds'] != ref['kinds']:
                     col.count('rejections_with_different_underlying_error_kinds')
             else:
+                group_failures += 1
                 col.outcome(v[2])
                 col.fail(case_of(tier, slot, t, r, ref['task'], ref['seed']), v[0], v[1], sig=v[2])
+        if gtask['family'] == 'hash' and ref['task'] == gid and ref['seed'] == REF_SEED and not group_failures:
+            # every load of the group agrees; if they agree on the wrong outcome the corpus no longer fits the tree
+            want_loaded = '/broken/' not in gid
+            if ref['loaded'] != want_loaded:
+                misfits.append('corpus package of task %s: every load %s (%s %s)' % (
+                    gid, 'was rejected' if want_loaded else 'was accepted', ref['rejected'], (ref['message'] or '')[:500]))
+    if misfits:
+        if col.n_failures - sum(col.known_counts.values()) == 0:
+            raise HarnessError('; '.join(misfits[:3]))
+        # some other group shows a genuine difference (reported as a violation); keep the misfit visible
+        col.note('NOTE: %d base tasks had the unexpected load outcome in every process, e.g. %s' % (len(misfits), misfits[0][:300]))
 
 
 # ----------------------------------------------------------------------------------------------------- coverage
@@ -571,7 +580,6 @@ def _run(ctx, root, slot):
     ctx.count('seeds_searched', len(planned_total))
     ctx.count('child_processes', len(set(r['file'] for r in rows)))
     ctx.count('probe_vs_child_order_mismatches', mismatches)
-    ctx.count('child_load_cpu_seconds', int(cpu))
     summ = cov.summary()
     for sid in sorted(summ):
         n, seen, poss = summ[sid]
